@@ -291,37 +291,138 @@ _SYM = {ast.Lt: "<", ast.Gt: ">", ast.LtE: "<=", ast.GtE: ">=", ast.Eq: "==", as
         ast.Is: "is", ast.IsNot: "is not", ast.In: "in", ast.NotIn: "not in"}
 
 
+_MAX_ATOMS = 10
+
+
+def _split_chain(node: ast.AST) -> ast.AST:
+    if isinstance(node, ast.Compare) and len(node.ops) > 1:
+        parts = []
+        left = node.left
+        for op, right in zip(node.ops, node.comparators):
+            parts.append(ast.Compare(left, [op], [right]))
+            left = right
+        return ast.BoolOp(op=ast.And(), values=parts)
+    return node
+
+
+def _is_connective(node: ast.AST) -> bool:
+    node = _split_chain(node)
+    return isinstance(node, (ast.BoolOp, ast.IfExp)) or (
+        isinstance(node, ast.UnaryOp) and isinstance(node.op, ast.Not)) or (
+        isinstance(node, ast.Constant) and isinstance(node.value, bool))
+
+
+def _blake(node: ast.AST, env: Optional[Env], negate: bool) -> Optional[str]:
+    """Blake canonical form (the disjunction of ALL prime implicants) of a propositional
+    combination of atoms: two tests get the same text iff they are the same boolean function of
+    their atoms, however and/or/not/conditional expressions are nested. Atoms are leaves in
+    canonical spelling; an atom and its negation are one variable. None if there are too many
+    atoms."""
+    atoms: dict = {}   # variable key -> (positive text, negative text)
+
+    def leaf(n: ast.AST):
+        pos, neg = norm_test(n, env, False), norm_test(n, env, True)
+        if neg < pos:
+            atoms.setdefault(neg, (neg, pos))
+            return neg, False
+        atoms.setdefault(pos, (pos, neg))
+        return pos, True
+
+    def build(n: ast.AST):
+        n = _split_chain(n)
+        if isinstance(n, ast.UnaryOp) and isinstance(n.op, ast.Not):
+            return ("not", build(n.operand))
+        if isinstance(n, ast.BoolOp):
+            return ("or" if isinstance(n.op, ast.Or) else "and", [build(v) for v in n.values])
+        if isinstance(n, ast.IfExp):
+            return ("ite", build(n.test), build(n.body), build(n.orelse))
+        if isinstance(n, ast.Constant) and isinstance(n.value, bool):
+            return ("const", n.value)
+        return ("atom",) + leaf(n)
+    tree = build(node)
+    names = sorted(atoms)
+    n = len(names)
+    if n > _MAX_ATOMS:
+        return None
+    idx = {k: i for i, k in enumerate(names)}
+
+    def ev(t, a: int) -> bool:
+        k = t[0]
+        if k == "atom":
+            v = bool(a >> idx[t[1]] & 1)
+            return v if t[2] else not v
+        if k == "not":
+            return not ev(t[1], a)
+        if k == "and":
+            return all(ev(x, a) for x in t[1])
+        if k == "or":
+            return any(ev(x, a) for x in t[1])
+        if k == "ite":
+            return ev(t[2], a) if ev(t[1], a) else ev(t[3], a)
+        return t[1]
+    full = (1 << n) - 1
+    minterms = {a for a in range(1 << n) if ev(tree, a) != negate}
+    if not minterms:
+        return "False"
+    if len(minterms) == 1 << n:
+        return "True"
+    # Quine-McCluskey: implicants are (care mask, value)
+    cur = {(full, m) for m in minterms}
+    primes = set()
+    while cur:
+        nxt = set()
+        used = set()
+        lst = sorted(cur)
+        by_mask: dict = {}
+        for mk, v in lst:
+            by_mask.setdefault(mk, set()).add(v)
+        for mk, vals in by_mask.items():
+            for v in vals:
+                for bit in range(n):
+                    if not (mk >> bit & 1):
+                        continue
+                    w = v ^ (1 << bit)
+                    if w in vals:
+                        nxt.add((mk & ~(1 << bit), v & ~(1 << bit)))
+                        used.add((mk, v))
+                        used.add((mk, w))
+        primes |= cur - used
+        cur = nxt
+    terms = []
+    for mk, v in primes:
+        lits = []
+        for i, k in enumerate(names):
+            if mk >> i & 1:
+                lits.append(atoms[k][0] if v >> i & 1 else atoms[k][1])
+        lits = sorted(set(lits))
+        terms.append(lits[0] if len(lits) == 1 else "(" + " and ".join(lits) + ")")
+    terms = sorted(set(terms))
+    return terms[0] if len(terms) == 1 else "(" + " or ".join(terms) + ")"
+
+
 def norm_test(node: ast.AST, env: Optional[Env] = None, negate: bool = False) -> str:
-    """Canonical text of a boolean test: comparisons are written as
-    ``lhs - rhs <op> 0`` with a canonical sign, De Morgan is applied, and/or
-    operands are sorted."""
+    """Canonical text of a boolean test. Comparisons are written as ``lhs - rhs <op> 0`` with a
+    canonical sign; combinations of tests (and / or / not / conditional expressions / chained
+    comparisons) are reduced to their Blake canonical form, so that equal text means equal
+    boolean function of the atoms."""
+    if _is_connective(node):
+        r = _blake(node, env, negate)
+        if r is not None:
+            return r
     if isinstance(node, ast.UnaryOp) and isinstance(node.op, ast.Not):
         return norm_test(node.operand, env, not negate)
     if isinstance(node, ast.IfExp):
-        # a conditional expression used as a test: `X if A else Y` == (A and X) or (not A and Y),
-        # simplified for constant arms (`True if A else B` == A or B, ...)
         a, x, y = node.test, node.body, node.orelse
-
-        def const(e: ast.AST):
-            return e.value if isinstance(e, ast.Constant) and isinstance(e.value, bool) else None
-        cx, cy = const(x), const(y)
         na = ast.UnaryOp(op=ast.Not(), operand=a)
-        if cx is True and cy is False:
-            eq: ast.AST = a
-        elif cx is False and cy is True:
-            eq = na
-        elif cx is True:
-            eq = ast.BoolOp(op=ast.Or(), values=[a, y])
-        elif cx is False:
-            eq = ast.BoolOp(op=ast.And(), values=[na, y])
-        elif cy is True:
-            eq = ast.BoolOp(op=ast.Or(), values=[na, x])
-        elif cy is False:
-            eq = ast.BoolOp(op=ast.And(), values=[a, x])
-        else:
-            eq = ast.BoolOp(op=ast.Or(), values=[ast.BoolOp(op=ast.And(), values=[a, x]),
-                                                 ast.BoolOp(op=ast.And(), values=[na, y])])
-        return norm_test(eq, env, negate)
+        eq = ast.BoolOp(op=ast.Or(), values=[ast.BoolOp(op=ast.And(), values=[a, x]),
+                                             ast.BoolOp(op=ast.And(), values=[na, y])])
+        return _syntactic(eq, env, negate)
+    return _syntactic(node, env, negate)
+
+
+def _syntactic(node: ast.AST, env: Optional[Env] = None, negate: bool = False) -> str:
+    if isinstance(node, ast.UnaryOp) and isinstance(node.op, ast.Not):
+        return norm_test(node.operand, env, not negate)
     if isinstance(node, ast.BoolOp):
         op_or = isinstance(node.op, ast.Or)
         if negate:
